@@ -4,7 +4,9 @@ scratch copy of /repo/pint (never to /repo). Prints which check (if any) reports
 import json, os, shutil, subprocess, sys, tempfile
 VERIF = os.path.dirname(os.path.dirname(os.path.abspath(__file__)))
 root = sys.argv[1]
-only = sys.argv[2:]
+only = [a for a in sys.argv[2:] if not a.startswith("--json=")]
+json_out = next((a[7:] for a in sys.argv[2:] if a.startswith("--json=")), None)
+RESULTS = {}
 claimed = sorted(f[:-3] for f in os.listdir(os.path.join(VERIF, "sa", "rules")) if f.startswith("C") and f.endswith(".py"))
 for pid in sorted(os.listdir(root)):
     if only and pid not in only:
@@ -38,8 +40,12 @@ for pid in sorted(os.listdir(root)):
             own = [h for h in hits if h[0] == pid]
             status = "CAUGHT" if own and not own[0][1][0].startswith("ANALYSIS") else ("caught-by-other" if any(not h[1][0].startswith("ANALYSIS") for h in hits) else "MISSED")
             print(f"{pid} seed{k}: {status}  [{meta.get('function','?')}] {meta.get('summary','')[:90]}")
+            RESULTS[f"{pid}-{k}"] = {"status": status, "hits": [{"check": c, "reports": lines} for c, lines in hits]}
             for c, lines in hits:
                 for l in lines:
                     print(f"      {c}: {l[:200]}")
         finally:
             shutil.rmtree(tmp, ignore_errors=True)
+
+if json_out:
+    json.dump(RESULTS, open(json_out, "w"), indent=1)
